@@ -25,6 +25,7 @@ type genOpts struct {
 	oneDst       bool // all streams onto one downstream pchannel (C03)
 	dropOrder    bool // enumerate shard delivery orders of drops (C04)
 	unequalCount bool // SourceChannelNum != TargetChannelNum (C16 end-to-end)
+	reincarnate  bool // a dropped partition is created again under the same name (new ids on both sides) and gets data
 }
 
 // genCase builds a catalog, placements, scripts and steps. All choices come from rnd.
@@ -324,6 +325,51 @@ func genCase(seed int64, idx int, o genOpts) *Case {
 				pk := &c.Scripts[sh.SrcP][at[si]]
 				pk.After = append(pk.After, stepDep(st))
 			}
+		}
+	}
+	// ---- a dropped partition created again under the same name (new source id, new downstream id) ----
+	if o.reincarnate {
+		var cands [][2]int
+		for key := range dropPartAt {
+			_, collDropped := dropCollAt[key[0]]
+			isLate := key[0] == lateColl
+			for _, lp := range lateParts {
+				if lp.ci == key[0] && lp.pi == key[1] {
+					isLate = true
+				}
+			}
+			if !collDropped && !isLate {
+				cands = append(cands, key)
+			}
+		}
+		sort.Slice(cands, func(i, j int) bool { return cands[i][0] < cands[j][0] || (cands[i][0] == cands[j][0] && cands[i][1] < cands[j][1]) })
+		if len(cands) > 0 {
+			key := cands[rnd.Intn(len(cands))]
+			ci, pi := key[0], key[1]
+			col := &c.Colls[ci]
+			old := col.Parts[pi]
+			newPi := len(col.Parts)
+			col.Parts = append(col.Parts, PartSpec{Name: old.Name, SrcID: col.SrcID*10 + int64(2+newPi) + 500, DstID: col.DstID*10 + int64(2+newPi) + 700, CreateTs: old.CreateTs + 1000})
+			// the new incarnation is announced (watch event) once the old one's drop request has gone out
+			stNew := len(c.Steps)
+			c.Steps = append(c.Steps, Step{Kind: sAddPart, Coll: ci, Part: newPi, Async: true, After: []Dep{{DropEvt: true, EvtColl: ci, EvtPart: pi}}})
+			for si, sh := range col.Shards {
+				script := c.Scripts[sh.SrcP]
+				last := script[len(script)-1]
+				stepTs := uint64(40) << 18
+				b := last.EndTs
+				pp := PPack{BeginTs: b, EndTs: b + stepTs, After: []Dep{stepDep(stNew)}}
+				for j := 0; j < 2+rnd.Intn(2); j++ {
+					kind := kInsert
+					if j == 1 {
+						kind = kDelete
+					}
+					pp.Msgs = append(pp.Msgs, MsgSpec{UID: newUID(), Kind: kind, Coll: ci, Shard: si, Part: newPi, TS: b + uint64(1+j)<<18, Rows: 1 + rnd.Intn(2)})
+				}
+				script = append(script, pp, PPack{BeginTs: b + stepTs, EndTs: b + 2*stepTs})
+				c.Scripts[sh.SrcP] = script
+			}
+			c.Note += fmt.Sprintf(" + partition %s of coll %d dropped and created again (part %d -> %d)", old.Name, ci, pi, newPi)
 		}
 	}
 	// ---- late registrations (watch events while data flows) ----
